@@ -100,38 +100,51 @@ func Open(options Options) (*DB, error) {
 		}},
 	}
 
+	// 获取文件锁之后的任何失败都必须关闭已打开的文件并释放文件锁
+	// 否则该目录在当前进程内无法再次打开
+	fail := func(err error) (*DB, error) {
+		if db.activeFile != nil {
+			_ = db.activeFile.Close()
+		}
+		for _, file := range db.olderFiles {
+			_ = file.Close()
+		}
+		_ = fileLock.Unlock()
+		return nil, err
+	}
+
 	// 尝试加载 merge 临时目录中的数据文件
 	// 当 nonMergeFileId == 0 时可表示 merge 失败, 否则成功
 	nonMergeFileId, err := db.loadMergeFiles()
 	if err != nil {
-		return nil, err
+		return fail(err)
 	}
 
 	// 加载数据目录中的数据文件
 	files, err := db.loadDataFiles()
 	if err != nil {
-		return nil, err
+		return fail(err)
 	}
 
 	// 如果 merge 成功, 尝试使用 hint 文件快速加载索引
 	if nonMergeFileId > 0 {
 		maxFileId, err := db.loadIndexFromHintFile()
 		if err != nil {
-			return nil, err
+			return fail(err)
 		}
 		nonMergeFileId = min(maxFileId, nonMergeFileId)
 	}
 
 	if db.activeFile == nil {
 		if err := db.setActiveFile(); err != nil {
-			return nil, err
+			return fail(err)
 		}
 	}
 
 	// 如果存在数据文件, 则加载索引
 	if len(files) > 0 {
 		if err := db.loadIndexFromDataFiles(files, nonMergeFileId); err != nil {
-			return nil, err
+			return fail(err)
 		}
 	}
 
